@@ -47,8 +47,8 @@ template <typename T> inline std::string ndump(const T& x) { return neutral(dump
 inline std::string clip(const std::string& s, size_t n = 400) { return s.size() > n ? s.substr(0, n) + "..." : s; }
 
 // Runs `f` in a forked child (the step may crash the process: sanitizer report,
-// abort, SEGV).  Child exit code: 0 = step ran and f returned 0; 1..9 = f's verdict;
-// anything else = crash.  `headline` receives the first sanitizer headline, if any.
+// abort, SEGV).  Child exit code: 0 = step ran and f returned 0; 40..49 = f's verdict
+// (47 = C++ exception); anything else = crash (sanitizers exit with 1 / 66 / 67 ...).  `headline` receives the first sanitizer headline, if any.
 struct Fork_Result { bool crashed; int code; int sig; std::string headline; };
 inline Fork_Result run_forked(const std::function<int()>& f) {
   Fork_Result R; R.crashed = false; R.code = 0; R.sig = 0;
@@ -60,7 +60,7 @@ inline Fork_Result run_forked(const std::function<int()>& f) {
     close(pfd[0]); dup2(pfd[1], 2); close(pfd[1]);
     alarm(20);
     int rc = 98;
-    try { rc = f(); } catch (const std::exception& e) { fprintf(stderr, "EXCEPTION %s: %s\n", typeid(e).name(), e.what()); rc = 97; } catch (...) { rc = 97; }
+    try { rc = f(); } catch (const std::exception& e) { fprintf(stderr, "EXCEPTION %s: %s\n", typeid(e).name(), e.what()); rc = 47; } catch (...) { rc = 47; }
     _exit(rc);
   }
   close(pfd[1]);
@@ -69,7 +69,7 @@ inline Fork_Result run_forked(const std::function<int()>& f) {
   close(pfd[0]);
   int status = 0; waitpid(pid, &status, 0);
   if (WIFSIGNALED(status)) { R.crashed = true; R.sig = WTERMSIG(status); }
-  else { R.code = WEXITSTATUS(status); if (R.code >= 10 && R.code != 97) R.crashed = true; }
+  else { R.code = WEXITSTATUS(status); if (R.code != 0 && (R.code < 40 || R.code > 49)) R.crashed = true; }
   // headline
   size_t p = err.find("ERROR: AddressSanitizer: ");
   if (p != std::string::npos) { size_t a = p + 25, b = err.find_first_of(" \n", a); R.headline = "asan:" + err.substr(a, b - a); }
@@ -82,6 +82,15 @@ inline Fork_Result run_forked(const std::function<int()>& f) {
   while (nf < 4 && (q = err.find(" in ", q)) != std::string::npos) { size_t e = err.find('\n', q); std::string l = err.substr(q + 4, e - q - 4); if (l.find("/repo/") != std::string::npos) { frames += " <- " + l.substr(0, 160); ++nf; } q = e == std::string::npos ? err.size() : e; }
   R.headline += frames;
   return R;
+}
+
+// A defect that silently corrupts an object (e.g. the truncating DENSE -> SPARSE copy leaves elements beyond the row
+// size) may surface only steps later, in another operation.  Workloads name the corrupting configuration when they
+// exercise it; every later violation of the same case carries it as its triage class.
+inline std::string& poison() { static std::string p; return p; }
+inline void viol(std::string key, const std::string& detail) {
+  if (!poison().empty()) { size_t c = key.find(':'); key = key.substr(0, c) + ":" + poison(); }
+  hx::violation(key, detail);
 }
 
 // logical-time guard shared by all sub-workloads
